@@ -4,6 +4,9 @@ VERIF = os.path.dirname(os.path.dirname(os.path.abspath(__file__)))
 ALL = ["C%02d" % i for i in range(1, 19)]
 
 CLAIMS = {
+    "C01": dict(cat="proof", design="§7 C01", technique="Lean 4: soundness of a CPython-semantics regex matcher + generic termination/progress theorems for the two scanner loops, with kernel-decided obligations on rule tables regenerated from the working tree; ties: regex conformance, loop-trace replay, handler-contract monitoring; guarded-process oracle",
+                text="Proved (Lean kernel, all subjects / all rule tables / all handler tables): the backtracking matcher is sound w.r.t. a declarative match relation; every match is at least minLen long; with rules that consume a character and handlers satisfying the progress contract, BlockParser.parse and InlineParser.parse terminate normally with strictly increasing cursor in at most |src| iterations. Kernel-decided on data regenerated from the working tree on every run: every rule of every named configuration has minLen >= 1, no regex anywhere has a nullable repeat body, every pattern was translated. Ties checked every run: engine vs re on every pattern (span + groups), the real loops' iterations replayed through the model loops, the progress contract monitored on every real handler call. NOT proved (tested): the contract of each concrete handler, the recursion-depth bound, renderer totality — covered by the oracle: documents, noise and nesting pumps under the configuration space in guarded worker processes.",
+                note="Trusted: Lean kernel + standard axioms; CPython re termination per call; extractor (re._parser based) re-validated behaviourally; generator reach. Partial: handler contracts and nesting bound are monitored/tested, not theorems."),
     "C08": dict(cat="proof", design="§7 C08", technique="Lean 4 theorems (history induction; interleaving invariant) about a model in which only coherent compile caches persist + state-footprint correspondence on the real object graph + history/thread differential against a pristine interpreter",
                 text="Theorems (Lean kernel): modelling a conversion as a program over the compile caches, for EVERY history on one converter each output equals the one-shot output, and for EVERY schedule of the atomic dictionary reads/writes of any number of concurrent conversions each finished thread returned its one-shot result (and a scheduled thread finishes). The abstraction 'only the scanner caches, _cached_modules and __cached_parsers persist, each entry being what its key compiles to' is checked, not assumed: a deep snapshot of everything reachable from the converter and from the mistune modules' globals (function defaults, closures, class attributes included) is compared before/after real calls. The property itself is evaluated on histories (reference links, footnotes, abbreviations, TOC ids, RST image counters, deep nesting) against a fork()ed pristine interpreter, on mistune.html and markdown() caches, and on 8-thread runs with a 1 µs switch interval.",
                 note="Trusted: Lean kernel + standard axioms; the action alphabet (dict get/set atomic under the GIL) — real preemption is covered only by the threaded runs; objects unreachable from the converter or mistune module globals are outside the footprint."),
